@@ -41,7 +41,7 @@ LocalX ==
          visB == Visible(E, R, Ev.cont)
          visA == IF ok THEN Visible(E2, R2, Ev.cont) ELSE <<>>
          seqOk ==
-           CASE call.a \in {"ins", "emb"} ->
+           CASE call.a \in {"ins", "emb", "insa"} ->
                   /\ Len(visA) >= Len(visB)
                   /\ SubSeq(visA, 1, call.i) = SubSeq(visB, 1, call.i)
                   /\ SubSeq(visA, call.i + 1 + (Len(visA) - Len(visB)), Len(visA)) = SubSeq(visB, call.i + 1, Len(visB))
@@ -65,6 +65,7 @@ LocalX ==
          RA == RenderOf(E2, R2, Ev.cont)
          richOk ==
            CASE call.a \in {"ins", "emb"} -> C03_RichInsert(RB, RA, call.i, newIds)
+             [] call.a = "insa" -> C03_RichInsertWith(RB, RA, call.i, newIds, call.key, call.v)
              [] call.a = "del" -> C03_RichDelete(RB, RA, call.i, call.n)
              [] call.a = "fmt" -> C03_RichFormat(RB, RA, call.i, call.n, call.key, call.v)
              [] OTHER -> TRUE
